@@ -37,6 +37,8 @@ def craft_p1(rng, scheme, o, key, valid=True):
     """a peer packet 1 with a digest under `key` at offset index o of the given scheme ('c' = 8-based, 's' = 772-based)"""
     p = bytearray(rng.bytes(1536))
     p[0:4] = rng.choice([bytes(4), rng.bytes(4)])
+    # the version field: what real peers send, random, and all zero (a digest-bearing packet need not have a version)
+    p[4:8] = rng.choice([bytes(4), rng.bytes(4), bytes([128, 0, 7, 2]), bytes([9, 0, 124, 2]), bytes([0, 0, 0, 1])])
     four = four_bytes_with_residue(rng, o)
     if scheme == "c":
         p[8:12] = four
